@@ -857,6 +857,10 @@ class Ev:
             for i, sp in enumerate(p["pats"]):
                 self.bind_pat(sp, fld(val, str(i)), env)
             return
+        if k == "pstruct":
+            for f in p["fields"]:
+                self.bind_pat(f["pat"], fld(val, f["name"]), env)
+            return
         raise Opaque("binding pattern " + k)
 
     # ---------------------------------------------------------------- result-typed expressions
